@@ -458,6 +458,8 @@ class BaseParser:
         result = {}
         provided = {}   # field name -> the (first) input value given for it under any accepted name
         ranks = {}      # field name -> position of the input key in the field's aliases
+        chosen = {}     # field name -> field, in order of first appearance in the input
+        conflicted = set()   # fields given under several names with different values
         dependencies = set()
         unprovided_fields = set()
         options = context.options
@@ -481,16 +483,24 @@ class BaseParser:
                 # another accepted name of a field already taken from the input:
                 # compare the input values (not the parsed one), before anything else, as field_first_parse does
                 if not options.ignore_alias_conflicts:
-                    if provided[name] != value:
+                    if provided[name] != value and name not in conflicted:
                         context.handle_error(exc.AliasConflictError(item=name, value=value))
+                        conflicted.add(name)
                     continue
                 # conflicts are ignored: the value given under the field's foremost name wins,
                 # whatever the order of the input keys (as in field_first_parse)
                 if rank > ranks[name]:
                     continue
-                pop(result, name)
             provided[name] = value
             ranks[name] = rank
+            chosen[name] = field
+
+        # the values are parsed once every key has been seen: only the value that stands for the field is parsed
+        # (never one that loses to a foremost name, or one of two conflicting values), as in field_first_parse
+        for name, field in chosen.items():
+            if name in conflicted:
+                continue
+            value = provided[name]
 
             if field.is_no_input(value, options=options):
                 # no input field does not take input from __init__
@@ -557,6 +567,7 @@ class BaseParser:
         as_attname: bool = False,
         excluded_keys: List[str] = None,
     ):
+        conflicted_keys = set()
         if self.case_insensitive_names:
             _data = {}
             for k, v in data.items():
@@ -569,6 +580,7 @@ class BaseParser:
                         field = self.get_field(k)
                         name = (field.attname if as_attname else field.name) if field else k
                         context.handle_error(exc.AliasConflictError(item=name, value=v))
+                        conflicted_keys.add(k)
                         continue
                 _data[k] = v
             data = _data
@@ -581,6 +593,7 @@ class BaseParser:
 
         for key, field in self.fields.items():
             value = unprovided
+            conflict = False
             name = field.attname if as_attname else field.name
 
             if excluded_keys and name in excluded_keys:
@@ -591,6 +604,9 @@ class BaseParser:
                     if alias in data:
                         value = data[alias]
                         break
+            elif conflicted_keys and conflicted_keys.intersection(field.all_aliases):
+                # letter-case variants of one name with different values (reported above)
+                conflict = True
             else:
                 for alias in field.all_aliases:
                     if alias in data:
@@ -599,7 +615,13 @@ class BaseParser:
                         else:
                             if data[alias] != value:
                                 context.handle_error(exc.AliasConflictError(item=name, value=data[alias]))
+                                conflict = True
                                 break
+
+            if conflict:
+                # reported above (when errors are collected): none of the conflicting values is parsed
+                used_alias.update(field.all_aliases)
+                continue
 
             if unprovided(value):
                 unprovided_fields.add(name)
